@@ -27,6 +27,8 @@ def boundary_configs(strength):
     cfgs = [
         ("octa/P1", "octa", ("P", 1, {}), None, ("P", 1, {}), scal + ["hyp"]),
         ("octa/DP0", "octa", ("DP", 0, {}), None, ("DP", 0, {}), scal),
+        ("octa/P1swapped", "octa", ("P", 1, {"swapped_normals": [1]}), None, ("P", 1, {"swapped_normals": [1]}),
+         ["dl", "adl", "hyp"]),
         ("screen22/P1b", "screen22", ("P", 1, {"include_boundary_dofs": True}), None,
          ("P", 1, {"include_boundary_dofs": True}), ["sl", "hyp"]),
         ("octa/P1seg0", "octa", ("P", 1, {"segments": [0], "include_boundary_dofs": True}), None,
